@@ -95,6 +95,27 @@ func randCaseLiterals(r *ref.R, p string) string {
 	return string(b)
 }
 
+// randCaseNames is randCaseLiterals plus capitals in parameter names (never in rules: `\D` is not `\d`): domain names
+// are case-insensitive as a whole, so `{Sub}.Example.com` is the domain `{sub}.example.com`.
+func randCaseNames(r *ref.R, p string) string {
+	b := []byte(randCaseLiterals(r, p))
+	if r.Bool() {
+		return string(b)
+	}
+	inName := false
+	for i, ch := range b {
+		switch {
+		case ch == '{':
+			inName = true
+		case ch == ':' || ch == '}':
+			inName = false
+		case inName && ch >= 'a' && ch <= 'z' && r.Chance(1, 2):
+			b[i] = ch - 32
+		}
+	}
+	return string(b)
+}
+
 func decorateHost(r *ref.R, h string) (string, string) {
 	port := ref.Pick(r, []string{"", "", ":80", ":", ":8080", ":8x", ":99999999999", "::", ":0"})
 	cls := "port=" + port
@@ -168,7 +189,7 @@ func c14AddOnly(c *Ctx) {
 		hs = newHostsWith(ics, lock)
 	}
 	for _, d := range table {
-		if tryAdd(hs, randCaseLiterals(r, d)) {
+		if tryAdd(hs, randCaseNames(r, d)) {
 			accepted = append(accepted, d)
 		}
 	}
@@ -293,7 +314,7 @@ func c14History(c *Ctx) {
 				pp, _ := ref.Parse(p, late.Funcs)
 				parsed[p] = pp
 			}
-			name := randCaseLiterals(r, p)
+			name := randCaseNames(r, p)
 			v, _ := model.Verdict(p, []string{"GET"})
 			ok := tryAdd(hs, name)
 			ops = append(ops, fmt.Sprintf("Add(%s)=%v", name, ok))
